@@ -55,11 +55,55 @@ CLAIMED.update({
             "the model's compaction stream (Lsm.v gc_key/apply_filter).", "6 C18"),
 })
 
+CLAIMED.update({
+ "C02": dict(cat="fault_enumeration", tech="crash enumeration under an LD_PRELOAD shim; oracle states from the extracted Coq model",
+   text="Deterministic workloads (writes, batches, transactions, clears, keyspace creation, rotate/flush/compaction/major) run under the shim; the "
+        "process is killed before every file-mutating system call after open and in the middle of journal writes; a fresh process reopens and "
+        "dumps every keyspace; the recovered state must be the Coq model's state after the last acknowledged operation or after the operation "
+        "in flight. Journal-level all-or-nothing is the C03 theorem; model-level recovery theorems are being added.",
+   note="crash = process death (write() data survives); lsm-tree's own flush/manifest crash safety is exercised, not proved; workloads start after open returned", ref="6 C02"),
+ "C09": dict(cat="fault_enumeration", tech="power-loss adversary from the shim's syscall log (unsynced journal bytes dropped) + syscall trace conformance",
+   text="For workloads with persist(buffer|data|all), batch durability levels, manual and automatic journal persist and clean close: at (a sample "
+        "of) every later system call the process is killed, every journal file is cut back to the extent written at its last successful "
+        "fsync/fdatasync, and the directory is reopened; every key must carry a value from a state at or after the last sync-acknowledged operation. "
+        "One trace scenario pins the write/fdatasync/fsync sequence per persist mode.",
+   note="fsync durability is the OS's promise; only journal files lose unsynced data (table durability belongs to lsm-tree)", ref="6 C09"),
+ "C10": dict(cat="fault_enumeration", tech="real 64 MB journal traffic; journal unlinks observed through the shim; crash right after each unlink",
+   text="Multi-keyspace workloads with 66 MiB of incompressible journal traffic per round reach real journal rotation; keyspaces are flushed in random "
+        "order with one lagging; every unlink of N.jnl is observed: oldest first, a crash right after the unlink recovers every acknowledged write, "
+        "journal_count returns to 1 once everything is flushed.", note="process-crash model at the unlink points", ref="6 C10"),
+ "C13": dict(cat="fault_enumeration", tech="EIO/ENOSPC/short-write injection on the n-th journal write/sync for every n (LD_PRELOAD shim)",
+   text="For every n, the n-th write / n-th fsync|fdatasync of *.jnl fails (optionally after a short write) during workloads mixing small operations, "
+        ">= 8 KiB values, batches, transactions, clears and persists: the failing call must report an error, no later write may be acknowledged, and "
+        "after exit (with and without clean drop) reopening yields the acknowledged prefix or that plus the complete failed operation (oracle states "
+        "from the Coq model).", note="faults on journal files only; single-threaded workloads", ref="6 C13"),
+ "C06": dict(cat="exploration", tech="controlled schedules through pause points with readers inside the commit window",
+   text="A batch / transaction commit is held after the seqno draw, between item applies or before publish; inside the window snapshots and single scans of "
+        "all keyspaces must show none or all of the batch, optionally while a flush of another keyspace or a major compaction completes; after release the "
+        "snapshot is unchanged and a new one sees everything. Schedules with a tree version upgrade inside the window fail: known finding E4.",
+   note="schedules enumerated through pause points only; the interleaving theorem over Conc.v is future work", ref="6 C06"),
+ "C14": dict(cat="exploration", tech="real threads with call/return timestamps; per-key Wing-Gong linearizability search; reopen equality",
+   text="2-8 threads issue put/del/get/batches through cloned handles with memtables of 600-4000 bytes and 1-4 worker threads; every operation is "
+        "timestamped; per-key histories (registers compose) are searched for a linearization including the final content; content after reopen equals "
+        "the final content; runs must terminate (write stalls release).", note="OS-scheduled interleavings are sampled, memory ordering and fairness are runtime", ref="6 C14"),
+ "C16": dict(cat="proof", tech="Coq proof (policy codecs, stored-form round trip) + differential check of stored option rows",
+   text="Coq theorems C16_policy_roundtrips (six codecs, vectors of length <= 255, f32 as bit patterns), C16_kvs_roundtrip (from_kvs(encode_kvs o) = o with "
+        "level_count forced to 7, all strategies/parameters, blob options), C16_existing_ignores_options; tied to the code by creating random option "
+        "records through the real API and comparing Keyspace::verif_config_dump after creation and after reopen-with-different-options with the extracted "
+        "Options.v; behavioural probe on the memtable size. Known finding E15 (256-entry level ratio vector).",
+   note="trusted: as C03; the guard length <= 255 is exactly what the policy constructors assert", ref="6 C16"),
+ "C17": dict(cat="proof", tech="Coq proof (marker acceptance for all byte strings, refusal before any effect, lock iff handle) + marker fuzz / lock / thread checks",
+   text="Coq theorems C17_marker (accepted iff the content starts with 'FJL' 3), C17_refused_unmodified, C17_locked_unmodified, C17_lock_iff_handle over "
+        "Marker.v; tied to the code by opening a real database directory under every single-byte variant, truncation and extension of the marker (result "
+        "and directory-tree hash before/after compared with the model), second opens from another process while handles and workers are alive, after the last "
+        "drop and after exit, and a /proc count of fjall worker threads.", note="flock semantics and thread exit are the OS's", ref="6 C17"),
+})
+
 m = {"version": 1, "setup_cmd": "./setup.sh",
      "hooks": {"guard": "cargo feature fjall_verif",
                "enable": "harness/Cargo.toml depends on fjall = { path = \"/repo\", features = [\"fjall_verif\"] }",
                "baseline_off_cmd": "cd /repo && cargo test --workspace --no-fail-fast --offline",
-               "source_commits": ["3625703", "f42994d"], "add_only": True},
+               "source_commits": ["3625703", "f42994d", "23fbda1"], "add_only": True},
      "engines": [{"name": "coq-model+correspondence", "path": "coq/ ocaml/ harness/ shim/ py/",
                   "serves_properties": sorted(CLAIMED),
                   "kind_free_text": "Coq 8.16 model + theorems; extracted model (fjm) vs implementation harness (fjv) on the same programs / bytes"}],
